@@ -62,7 +62,7 @@ ASSUMPTIONS = [
 def plan(tier: str) -> dict[str, Any]:
     if tier == "quick":
         return {"cases": 6000 + 240, "n_prog": 6000, "budget_s": 60, "min_per_shard": 100}
-    return {"cases": 400000 + 20000, "n_prog": 400000, "budget_s": 1500, "min_per_shard": 1000}
+    return {"cases": 2000000 + 60000, "n_prog": 2000000, "budget_s": 1500, "min_per_shard": 1000}
 
 
 def gen_case(idx: int, seed: int, tier: str) -> Any:
